@@ -56,6 +56,7 @@ type vzAdv struct {
 	budget        int                                   // adversarial injections in this run
 	lead          uint64                                // how many heights the puppets may run ahead of the node's finalizations
 	chainPH       map[uint64]tmconsensus.ProposedHeader // the proposal that was committed, per height
+	withheld      []vzWithheld                          // dissenting precommits of decided rounds, sent behind the next proposal
 	abst          [2]map[int]bool                       // puppets that stay silent in this round (split rounds)
 	plan          int                                   // the puppets' outcome for this round: 0 undecided, 1 commit the first proposal, 2 nil quorum, 3 split (no quorum)
 }
@@ -176,6 +177,12 @@ func (a *vzAdv) send(cm tmcodec.ConsensusMessage, kind, expect, note string) {
 	}
 }
 
+type vzWithheld struct {
+	h          uint64
+	cm         tmcodec.ConsensusMessage
+	kind, note string
+}
+
 // ---- honest progress
 
 func (a *vzAdv) propose() {
@@ -195,6 +202,31 @@ func (a *vzAdv) propose() {
 	a.phs = append(a.phs, ph)
 	a.remember(a.h, a.r, 0, string(ph.Header.Hash), tmcodec.ConsensusMessage{ProposedHeader: &ph})
 	a.send(tmcodec.ConsensusMessage{ProposedHeader: &ph}, "ph", "valid", fmt.Sprintf("honest proposal %d/%d by %d hash %x", a.h, a.r, prop, trunc(string(ph.Header.Hash))))
+	for _, wh := range a.withheld {
+		if wh.h+1 == a.h {
+			// its previous-commit proof holds a precommit the node has not seen: a good place for a lull
+			w.mu.Lock()
+			w.lullBehind[w.nextMsg] = true
+			w.mu.Unlock()
+		}
+	}
+}
+
+// releaseWithheld sends the held-back dissenting precommits of a decided height once the node has
+// accepted a proposal of the next height (whose previous-commit proof contains them).
+func (a *vzAdv) releaseWithheld() {
+	var keep []vzWithheld
+	for _, wh := range a.withheld {
+		a.w.mu.Lock()
+		ok := a.w.phAccepted[wh.h+1] > 0
+		a.w.mu.Unlock()
+		if !ok {
+			keep = append(keep, wh)
+			continue
+		}
+		a.send(wh.cm, wh.kind, "valid", wh.note)
+	}
+	a.withheld = keep
 }
 
 // cands lists the puppets that are validators at the chain's height and have not cast a vote of that kind in this round.
@@ -240,6 +272,7 @@ func (a *vzAdv) honestVote() bool {
 	if a.plan == 1 && len(a.phs) == 0 {
 		return false
 	}
+	a.absorbNodePrecommit()
 	kind := s.Choose("adv-votekind", 2)
 	cands := a.cands(kind)
 	if len(cands) == 0 {
@@ -273,7 +306,7 @@ func (a *vzAdv) honestVote() bool {
 		want = targets[1]
 	}
 	hash := want
-	if a.plan == 3 || s.Pct("adv-dissent", 15) {
+	if a.plan == 3 || s.Pct("adv-dissent", []int{15, 35}[kind]) {
 		alt := targets[s.Choose("adv-target", len(targets))]
 		if a.plan == 3 {
 			hash = alt
@@ -352,15 +385,56 @@ func (a *vzAdv) honestVote() bool {
 		}
 	}
 	cm, k := a.voteMsg(kind, a.h, a.r, string(a.vs(a.h).PubKeyHash), proofs)
+	if kind == 1 && a.plan == 1 && hash != want && len(proofs) == 1 && s.Pct("adv-withhold-dissent", 60) {
+		// A dissenting precommit of a round that commits travels slowly: the node first learns of it from
+		// the previous-commit proof of the next height's proposal, and only later receives the vote itself.
+		s.Probe("dissenting_precommit_held_back")
+		a.withheld = append(a.withheld, vzWithheld{h: a.h, cm: cm, kind: k, note: fmt.Sprintf("honest %s %d/%d for %x by %v (held back until the next proposal)", k, a.h, a.r, trunc(hash), who)})
+		a.maybeAdvance()
+		return true
+	}
 	a.remember(a.h, a.r, 1+kind, hash, cm)
 	a.send(cm, k, "valid", fmt.Sprintf("honest %s %d/%d for %x by %v", k, a.h, a.r, trunc(hash), who))
 	a.maybeAdvance()
 	return true
 }
 
+// absorbNodePrecommit: a precommit the node itself has signed in the puppets' round counts towards the
+// round's outcome like any other validator's (the puppets have received it), so a puppet may dissent
+// or stay behind while the node and the others decide.
+func (a *vzAdv) absorbNodePrecommit() {
+	w := a.w
+	if a.crashEnum || a.keyID(a.h, 0) < 0 {
+		return
+	}
+	targets := []string{""}
+	for _, ph := range a.phs {
+		targets = append(targets, string(ph.Header.Hash))
+	}
+	for _, hash := range targets {
+		sb, err := tmconsensus.PrecommitSignBytes(tmconsensus.VoteTarget{Height: a.h, Round: a.r, BlockHash: hash}, w.fx.SignatureScheme)
+		if err != nil {
+			continue
+		}
+		w.mu.Lock()
+		signed := a.nd.signed[fmt.Sprintf("precommit/%d/%d", a.h, a.r)][string(sb)]
+		w.mu.Unlock()
+		if signed && !a.voted[1][hash][0] {
+			if a.voted[1][hash] == nil {
+				a.voted[1][hash] = map[int]bool{}
+			}
+			a.voted[1][hash][0] = true
+			a.cast(1, a.h, a.r, hash, 0)
+			w.s.Probe("node_precommit_counted")
+			w.s.Logf("adv: the node's own precommit %d/%d for %x counts", a.h, a.r, trunc(hash))
+		}
+	}
+}
+
 // maybeAdvance moves the puppets' chain on once they have sent a quorum of precommits.
 func (a *vzAdv) maybeAdvance() {
 	w := a.w
+	a.absorbNodePrecommit()
 	for hash, set := range a.voted[1] {
 		p, total := a.power(a.h, set)
 		if 3*p <= 2*total {
@@ -700,9 +774,12 @@ func (a *vzAdv) injectBadProposal() {
 			return // the initial height has no predecessor to name
 		}
 		ph.Header.PrevBlockHash = []byte("not-the-committed-predecessor-hash..")
+		if s.Pct("adv-badph-next-round", 50) {
+			ph.Round++ // lands in the node's next-round view when the node is in the puppets' round
+		}
 		w.fx.RecalculateHash(&ph.Header)
 		w.fx.SignProposal(context.Background(), &ph, 1)
-		desc, expect = "re-signed proposal naming a foreign predecessor", "C04:foreign-predecessor-proposal"
+		desc, expect = fmt.Sprintf("re-signed proposal for round %d naming a foreign predecessor", ph.Round), "C04:foreign-predecessor-proposal"
 	case 4:
 		ph.Signature = append([]byte(nil), ph.Signature...)
 		ph.Signature[3] ^= 0x10
@@ -1007,6 +1084,7 @@ func (a *vzAdv) injected() int {
 func (a *vzAdv) actions() []vsimcore.Action {
 	w := a.w
 	s := w.s
+	a.releaseWithheld()
 	var acts []vsimcore.Action
 	w.mu.Lock()
 	inflight := len(w.inflight)
@@ -1126,6 +1204,10 @@ func runNode(s *vsimcore.Sim, p vsimcore.Params) vsimcore.RunInfo {
 	}
 	if s.Pct("f-early-timer", 60) {
 		cfg.rEarlyTimer = 2 + s.Choose("r", 30)
+	}
+	if cfg.oracles["C11"] {
+		// pauses of all inputs in the middle of the history, at which the consumers must be current
+		cfg.rLull = []int{0, 6, 12, 25}[s.Choose("lull-rate", 4)]
 	}
 	if crashEnum {
 		cfg.rEquivocate = 0 // honest traffic only: the final chain is a function of the script
